@@ -282,7 +282,7 @@ func init() {
 			for i := 0; i < 6; i++ {
 				l.Add("fetch", netParams{Op: "fetch", N: 9, BaseRows: 4, Branches: 4, Tags: true, Force: "mixed"}, int64(1021+i))
 			}
-			for i := 0; i < l.N(150, 2000); i++ {
+			for i := 0; i < l.N(150, 8000); i++ {
 				p := netParams{N: 4 + rng.Intn(9), BaseRows: 4, Branches: 1 + rng.Intn(4), Tags: rng.Intn(2) == 0}
 				switch rng.Intn(10) {
 				case 0, 1, 2, 3:
